@@ -25,7 +25,7 @@ func init() {
 		Scenarios: []Scenario{{Name: "S-REQ/scripted-peer", Weight: 1, Run: c03Run}},
 		Quick:     200000,
 		Thorough:  3000000,
-		Require:   []string{"requests.concurrentlyOutstanding", "token.collision", "msg.dup", "msg.forged", "blockwise.continuationServed"},
+		Require:   []string{"requests.concurrentlyOutstanding", "token.differsOnlyInLeadingZeros", "token.collision", "msg.dup", "msg.forged", "blockwise.continuationServed"},
 		Assume: []string{
 			"on datagram transports the scripted peer emits a separate response only after its empty ACK was delivered (the lost/overtaken-ACK case is C06's known finding and is kept out of this check)",
 			"a second request invoked after the first one's answer was already handed to the connection may be accepted or rejected (A.1)",
@@ -136,6 +136,7 @@ func c03Run(e *Env) {
 		}
 		return []WOpt{UintOpt(OptBlock2, BlockOpt(num, more, 0)), UintOpt(OptSize2, uint32(len(pl)))}, pl[lo:hi]
 	}
+	zeroFamily := 0
 	completedTokens := [][]byte{}
 	sharedTokens := [][]byte{}
 	itemReq := map[*OutItem]int{} // answer item -> nonce of the request it answers
@@ -365,6 +366,14 @@ func c03Run(e *Env) {
 					}
 					if r.kind == 2 {
 						r.token = []byte{0x01, byte(r.nonce)}
+						if zeroFamily < 7 && t.Chance(1, 3) {
+							// distinct tokens that differ only in length: 50, 00 50, 00 00 50, ...
+							r.token = append(make([]byte, zeroFamily), 0x50)
+							zeroFamily++
+							if zeroFamily > 1 {
+								e.Probe("token.differsOnlyInLeadingZeros")
+							}
+						}
 					}
 					r.invokedPhase = e.Phase()
 					r.call = e.NewCall(fmt.Sprintf("req%d", r.nonce), r.nonce, nil, 200*time.Second)
